@@ -60,6 +60,18 @@ theorem C05_decode_pack (S : Schema) (fuel : Nat) (i : Impl) (ls : List Leaf) (e
   have := extract_pack ls vs 0 e (generate_tiles S true fuel i ls e hg) hv k hk
   simpa using this
 
+/-- **decode ∘ pack = id for both byte orders**: with big-endian leaves placed most significant
+byte first (`packLeavesE`), reading every signal as the generated DBC describes it — Intel at
+`start`, Motorola at `start + 7` (`C05_signals`) — returns the value.  Big-endian leaves are
+byte-aligned whole bytes (the only Motorola signals the generator supports) -/
+theorem C05_decode_pack_both (S : Schema) (fuel : Nat) (i : Impl) (ls : List Leaf) (e : Nat)
+    (hg : generate S true fuel i = some (ls, e)) (vs : List Int) (hv : vs.length = ls.length)
+    (hbig : ∀ l ∈ ls, l.endian = "big" → l.len % 8 = 0 ∧ l.start % 8 = 0)
+    (k : Nat) (hk : k < ls.length) :
+    (if ls[k].endian == "big" then extractMotorola (packLeavesE ls vs) (ls[k].start + 7) ls[k].len
+     else extractIntel (packLeavesE ls vs) ls[k].start ls[k].len) = toTwos ls[k].len (vs[k]'(by omega)) :=
+  extract_packE ls vs e (generate_tiles S true fuel i ls e hg) hv hbig k hk
+
 /-- the packed frame has exactly as many bits as the layout -/
 theorem C05_frame_bits (S : Schema) (fuel : Nat) (i : Impl) (ls : List Leaf) (e : Nat)
     (hg : generate S true fuel i = some (ls, e)) (vs : List Int) (hv : vs.length = ls.length) :
@@ -78,5 +90,10 @@ example : ((dbcMessage C05_S 5 C05_S.impls.head!).toOption.map fun m => (m.frame
 example : ((dbcMessage C05_S 5 C05_S.impls.head!).toOption.map fun m =>
     m.signals.map fun s => (s.start, s.length, s.bigEndian, s.signed)) =
     some [(0, 8, false, false), (15, 16, true, true)] := by decide
+
+/-- Motorola non-vacuity: `u8` then big-endian `i16` holding -2: bytes `07 ff fe`, read back -/
+example : let ls := ((generate C05_S true 5 C05_S.impls.head!).map (·.1)).getD []
+    pack (packLeavesE ls [7, -2]) = [7, 255, 254] ∧
+    extractMotorola (packLeavesE ls [7, -2]) 15 16 = toTwos 16 (-2) := by decide
 
 end Fcp
